@@ -3,19 +3,23 @@ Abstract state machine of a `Markdown` instance (C11).
 
 An instance has
 * `cfg`    — its configuration, constant since construction (extensions, output format, tab length, the registries);
-* `fields` — everything `Markdown.reset()` clears: `references`, `htmlStash`, and through the `reset()` of the
-             registered extensions the footnotes, abbreviations, toc state, `Meta`, …  After a conversion the side
-             outputs (`md.Meta`, `md.toc`, `md.toc_tokens`, …) are read from here;
-* `leak`   — state that `reset()` does **not** clear.  In the code: `md.parser.state` (`blockparser.State`, a stack
-             of `'list'`/`'looselist'`/`'detabbed'` markers).  Every processor that pushes a marker pops it after the
-             nested parse, so a conversion that returns leaves the stack as it found it; a conversion that raises
-             in between (e.g. `RecursionError` on deep nesting) does not.
+* `fields` — `references`, `htmlStash`, and through the `reset()` of the registered extensions the footnotes,
+             abbreviations, toc state, `Meta`, …  After a conversion the side outputs (`md.Meta`, `md.toc`,
+             `md.toc_tokens`, …) are read from here;
+* `leak`   — `md.parser.state` (`blockparser.State`, a stack of `'list'`/`'looselist'`/`'detabbed'` markers).  Every
+             processor that pushes a marker pops it after the nested parse, so a conversion that returns leaves the
+             stack as it found it; a conversion that raises in between (e.g. `RecursionError` on deep nesting) does
+             not.  It is kept apart from `fields` because of this discipline (`Balanced`), and because of its history:
+
+`Markdown.reset()` re-initialises **both** (`reset` below).  Until commit f86514b ("reset() clears the block parser's
+nesting state") it did not touch `leak` — that was the defect F-C11-1; `resetOld` is that former behaviour, kept
+only for the record (`Props/C11.lean`, section "history").
 
 `convert` is a *parameter* of the model (`Machine.convert`, any function): the theorem of `Props/C11.lean` is a frame
 theorem about `reset`, not about what a conversion computes.
 
 `Toy` is a small concrete machine (reference definitions, look-ups, a raising document that leaves the nesting
-counter non-zero) used by the examples, the counterexample and the driver op `inst.run`.
+counter non-zero) used by the examples, the historical counterexample and the driver op `inst.run`.
 -/
 namespace MdVerif.Instance
 
@@ -50,8 +54,12 @@ variable {Cfg F L Doc O : Type} (M : Machine Cfg F L Doc O)
 /-- `Markdown(**cfg)` -/
 def fresh (c : Cfg) : Inst Cfg F L := ⟨c, M.initF c, M.leak0⟩
 
-/-- (H1) `md.reset()`: the fields become those of a new instance; `leak` and `cfg` are not touched -/
-def reset (x : Inst Cfg F L) : Inst Cfg F L := { x with fields := M.initF x.cfg }
+/-- (H1) `md.reset()`: the fields become those of a new instance, and so does the block parser's nesting state
+    (`self.parser.state.clear()`); `cfg` is not touched -/
+def reset (x : Inst Cfg F L) : Inst Cfg F L := { x with fields := M.initF x.cfg, leak := M.leak0 }
+
+/-- HISTORY — `md.reset()` before commit f86514b (defect F-C11-1): `leak` was not touched -/
+def resetOld (x : Inst Cfg F L) : Inst Cfg F L := { x with fields := M.initF x.cfg }
 
 /-- `md.convert(d)`: the instance afterwards and the result -/
 def conv (x : Inst Cfg F L) (d : Doc) : Inst Cfg F L × Result O :=
@@ -85,7 +93,9 @@ def results (x : Inst Cfg F L) : List (Ev Doc) → List (Result O × F)
 /-- the usual usage: every document is preceded by `reset()` -/
 def resetEach (docs : List Doc) : List (Ev Doc) := docs.flatMap (fun d => [.reset, .convert d])
 
-/-- (H2) *balanced*: a conversion that returns leaves `leak` as it found it -/
+/-- *balanced*: a conversion that returns leaves `leak` as it found it.  (No longer a hypothesis of C11 — `reset`
+    clears the leak whatever happened — but still what makes consecutive conversions *without* `reset()` start
+    from an empty nesting state, and what the pre-repair theorem needed.) -/
 def Balanced : Prop :=
   ∀ c fl d fl' o, M.convert c fl d = (fl', Result.ok o) → fl'.2 = fl.2
 
